@@ -23,6 +23,7 @@ type Canon struct {
 	PhiEdge  map[*ssa.Phi]ssa.Value // optional: phi resolved along the current path
 	phiStack []*ssa.Phi
 	PhiName  map[*ssa.Phi]string // optional: fixed names (iteration mode: loop state variables)
+	AllocVal map[*ssa.Alloc]ssa.Value // optional: last value stored into a local along the current path
 }
 
 func NewCanon(p *Program) *Canon {
@@ -67,7 +68,7 @@ func (c *Canon) Of(v ssa.Value) string {
 	if v == nil {
 		return "?"
 	}
-	if len(c.env) == 0 && c.PhiEdge == nil && len(c.phiStack) == 0 {
+	if len(c.env) == 0 && c.PhiEdge == nil && len(c.phiStack) == 0 && c.AllocVal == nil {
 		if s, ok := c.memo[v]; ok {
 			return s
 		}
@@ -78,7 +79,7 @@ func (c *Canon) Of(v ssa.Value) string {
 		return "…"
 	}
 	s := c.of(v)
-	if len(c.env) == 0 && c.PhiEdge == nil && len(c.phiStack) == 0 {
+	if len(c.env) == 0 && c.PhiEdge == nil && len(c.phiStack) == 0 && c.AllocVal == nil {
 		c.memo[v] = s
 	}
 	return s
@@ -156,6 +157,10 @@ func (c *Canon) of(v ssa.Value) string {
 		switch x.Op {
 		case token.MUL:
 			switch a := x.X.(type) {
+			case *ssa.Alloc:
+				if v, ok := c.AllocVal[a]; ok {
+					return c.Of(v)
+				}
 			case *ssa.Global:
 				return shortPkg(a.Pkg.Pkg.Path()) + "." + a.Name()
 			case *ssa.FieldAddr:
